@@ -636,9 +636,20 @@ def format_taint(ctx, fi: FuncInfo, recv: ast.AST, funcs: Dict[str, FuncInfo], d
             return expr_taint(e.left, fn, d) + expr_taint(e.right, fn, d)
         if isinstance(e, ast.IfExp):
             return expr_taint(e.body, fn, d) + expr_taint(e.orelse, fn, d)
+        if isinstance(e, (ast.List, ast.Tuple)):
+            for x in e.elts:
+                res.extend(expr_taint(x.value if isinstance(x, ast.Starred) else x, fn, d))
+            return res
+        if isinstance(e, (ast.ListComp, ast.GeneratorExp)):
+            return expr_taint(e.elt, fn, d)
         if isinstance(e, ast.Name):
             vals = [n.value for n in walk_no_nested(fn.node) if isinstance(n, ast.Assign) and len(n.targets) == 1 and norm(n.targets[0]) == e.id]
             augs = [n.value for n in walk_no_nested(fn.node) if isinstance(n, ast.AugAssign) and norm(n.target) == e.id]
+            # a list filled piece by piece: what is appended / extended into it
+            for c_ in walk_no_nested(fn.node):
+                if isinstance(c_, ast.Call) and isinstance(c_.func, ast.Attribute) and c_.func.attr in ('append', 'extend', 'insert') \
+                        and isinstance(c_.func.value, ast.Name) and c_.func.value.id == e.id and c_.args:
+                    augs.append(c_.args[-1])
             if not vals and not augs:
                 params = [a.arg for a in fn.node.args.args]
                 return [f'parameter `{e.id}` of {fn.qualname}'] if e.id in params else []
